@@ -2,7 +2,7 @@
 //
 // Model checking = breadth-first enumeration of ALL operation sequences (up to a depth, from a few seed
 // histories) over the alphabet {Set k, Remove k, SaveVersion, Rollback, Load, LoadVersion v, DeleteVersionsTo v,
-// Reopen} executed on the REAL MutableTree over a MemDB, with de-duplication on a canonical digest of
+// Reopen, LoadVersionForOverwriting v, DeleteVersionsFrom v} executed on the REAL MutableTree over a MemDB, with de-duplication on a canonical digest of
 // (database contents, in-memory tree state, model state).  Every trace is replayed from scratch, so observations
 // never perturb the explored transition system.  Oracle: a per-version sorted-map model (reads, iterators, index
 // API, version bookkeeping, immutability of saved versions), structural invariants (AVL balance, height/size
@@ -48,6 +48,8 @@ const (
 	kLoadV
 	kDelTo
 	kReopen
+	kLoadOW  // LoadVersionForOverwriting(v): versions above v disappear, the working tree becomes v
+	kDelFrom // DeleteVersionsFrom(v): versions >= v disappear (only while the working tree is based on an older version)
 )
 
 type Op struct {
@@ -73,6 +75,10 @@ func (o Op) String() string {
 		return fmt.Sprintf("DelTo(%d)", o.Arg)
 	case kReopen:
 		return "Reopen"
+	case kLoadOW:
+		return fmt.Sprintf("LoadOW(%d)", o.Arg)
+	case kDelFrom:
+		return fmt.Sprintf("DelFrom(%d)", o.Arg)
 	}
 	return "?"
 }
@@ -101,6 +107,7 @@ type Model struct {
 	first, latest, base int64
 	working             map[string]string
 	dirty               bool
+	epoch               int // number of roll-backs that deleted versions (makes values of re-written versions distinct)
 	dead                map[int64]map[string]string // contents of deleted versions (only to recognise the zombie-version defect class)
 }
 
@@ -150,7 +157,7 @@ func (m *Model) extant(v int64) bool { return m.first > 0 && v >= m.first && v <
 
 func (m *Model) digest() string {
 	var b strings.Builder
-	fmt.Fprintf(&b, "f=%d l=%d b=%d d=%v w={%s}", m.first, m.latest, m.base, m.dirty, mapStr(m.working))
+	fmt.Fprintf(&b, "f=%d l=%d b=%d d=%v e=%d w={%s}", m.first, m.latest, m.base, m.dirty, m.epoch, mapStr(m.working))
 	for v := m.first; v > 0 && v <= m.latest; v++ {
 		fmt.Fprintf(&b, " %d:{%s}#%s", v, mapStr(m.saved[v]), m.hashes[v])
 	}
@@ -179,6 +186,14 @@ func (m *Model) enabled() []uint8 {
 		case kDelTo:
 			// deleting the version the working tree is based on is outside the documented contract
 			ok = m.extant(o.Arg) && o.Arg < m.base
+		case kLoadOW:
+			// on the latest version it deletes nothing and is LoadVersion(latest)
+			ok = m.extant(o.Arg) && o.Arg < m.latest
+		case kDelFrom:
+			// deleting the version the working tree is based on (or an older one) leaves the in-memory tree pointing at
+			// deleted nodes: outside the contract (LoadVersionForOverwriting is the API for that). Only on a clean tree,
+			// so that the reload the fast-storage configurations need afterwards (see fastDelFromCheck) changes nothing.
+			ok = m.extant(o.Arg) && o.Arg > m.base && !m.dirty
 		}
 		if ok {
 			out = append(out, uint8(i))
@@ -225,6 +240,25 @@ func (m *Model) batteryOps() []noop {
 				_, err := e.tree.LoadVersion(v)
 				if err == nil {
 					return "LoadVersion of a non-existent version succeeded"
+				}
+				return ""
+			}})
+		}
+	}
+	for v := int64(1); v <= maxV+1; v++ {
+		v := v
+		if !m.extant(v) {
+			out = append(out, noop{fmt.Sprintf("LoadOW(%d)", v), func(e *Exec) string {
+				if err := e.tree.LoadVersionForOverwriting(v); err == nil {
+					return "LoadVersionForOverwriting of a non-existent version succeeded"
+				}
+				return ""
+			}})
+		}
+		if v > m.latest {
+			out = append(out, noop{fmt.Sprintf("DelFrom(%d)", v), func(e *Exec) string {
+				if err := e.tree.DeleteVersionsFrom(v); err != nil {
+					return "DeleteVersionsFrom(> latest) failed: " + err.Error()
 				}
 				return ""
 			}})
@@ -301,7 +335,14 @@ func (e *Exec) bad(kind, format string, a ...any) {
 	e.viols = append(e.viols, Viol{Kind: kind, Cfg: e.c.Name, Trace: traceString(e.trace), Detail: fmt.Sprintf(format, a...)})
 }
 
-func valueFor(k string, ver int64) string { return fmt.Sprintf("%s@%d", k, ver) }
+// valueFor: values are unique per (key, version, incarnation of that version): a version number that is written
+// again after a roll-back (DeleteVersionsFrom / LoadVersionForOverwriting) gets different values.
+func valueFor(k string, ver int64, epoch int) string {
+	if epoch == 0 {
+		return fmt.Sprintf("%s@%d", k, ver)
+	}
+	return fmt.Sprintf("%s@%d~%d", k, ver, epoch)
+}
 
 func (e *Exec) reopen() (int64, error) {
 	e.tree = iavl.NewMutableTree(e.db, e.c.Cache, e.c.SkipFast, iavl.NewNopLogger())
@@ -349,7 +390,7 @@ func (e *Exec) step1(idx uint8) {
 	switch op.Kind {
 	case kSet:
 		k := keys[op.Arg]
-		val := valueFor(k, m.base+1)
+		val := valueFor(k, m.base+1, m.epoch)
 		_, existed := m.working[k]
 		upd, err := e.tree.Set([]byte(k), []byte(val))
 		if err != nil {
@@ -490,6 +531,53 @@ func (e *Exec) step1(idx uint8) {
 		}
 		m.first = op.Arg + 1
 		e.res = fmt.Sprintf("del:%v", err != nil)
+	case kLoadOW, kDelFrom:
+		// Roll-back by deletion of the newest versions. Every key of the working tree and of every version is read
+		// through the tree before (so that nodes of the versions about to disappear sit in the node cache, if any)
+		// and after the operation, in every configuration.
+		e.readEverything("before")
+		if !e.c.SkipFast && m.dirty && op.Kind == kLoadOW {
+			e.tree.Rollback() // same side-step as for LoadVersion (see dirtyLoadFastCheck)
+		}
+		var err error
+		from := op.Arg
+		if op.Kind == kLoadOW {
+			err = e.tree.LoadVersionForOverwriting(op.Arg)
+			from = op.Arg + 1
+		} else {
+			err = e.tree.DeleteVersionsFrom(op.Arg)
+			if err == nil && !e.c.SkipFast {
+				// Fast-storage mode only: DeleteVersionsFrom leaves the fast-node index of the deleted latest version in place
+				// ("it'll be rebuilt later because of version mismatch", nodedb.go) while reads of the new latest version trust
+				// it (reported by fastDelFromCheck). The fast configurations reload the new latest version, which rebuilds the
+				// index from it (a reload of an OLDER version would rebuild the "latest" index from that older version).
+				if _, err = e.tree.Load(); err == nil && m.base != op.Arg-1 {
+					_, err = e.tree.LoadVersion(m.base)
+				}
+			}
+		}
+		if err != nil {
+			e.bad("rollback-versions-error", "%s: %v", op, err)
+			e.res = "rollback-versions:err"
+			break
+		}
+		if from <= m.latest {
+			for v := from; v <= m.latest; v++ {
+				delete(m.saved, v)
+				delete(m.hashes, v)
+				delete(e.shSaved, v)
+			}
+			m.latest = from - 1
+			m.epoch++
+		}
+		if op.Kind == kLoadOW {
+			m.base = op.Arg
+			m.working = cp(m.saved[op.Arg])
+			m.dirty = false
+			e.shCur = e.shSaved[op.Arg]
+		}
+		e.readEverything("after")
+		e.res = fmt.Sprintf("rollback-versions:%d", m.latest)
 	case kReopen:
 		got, err := e.reopen()
 		if err != nil || got != m.latest {
@@ -504,6 +592,42 @@ func (e *Exec) step1(idx uint8) {
 		m.dirty = false
 		e.shCur = e.shSaved[m.base]
 		e.res = fmt.Sprintf("reopen:%d:%v", got, err != nil)
+	}
+}
+
+// readEverything reads every key of the universe in the working tree and, by tree traversal (GetWithIndex never
+// takes the fast-node short cut), in every extant version, and compares with the model.
+func (e *Exec) readEverything(when string) {
+	m := e.m
+	nReadsAround.Add(1)
+	for _, k := range universe {
+		v, err := e.tree.Get([]byte(k))
+		if err != nil || string(v) != m.working[k] {
+			e.bad("contents-differ-from-model", "%s roll-back: working Get(%s)=(%q,%v) want %q", when, k, v, err, m.working[k])
+		}
+	}
+	for v := int64(1); v <= maxV+1; v++ {
+		it, err := e.tree.GetImmutable(v)
+		if !m.extant(v) {
+			if err == nil {
+				e.bad("deleted-or-future-version-readable", "%s roll-back: GetImmutable(%d) succeeded", when, v)
+			}
+			continue
+		}
+		if err != nil {
+			e.bad("version-unreadable", "%s roll-back: GetImmutable(%d): %v", when, v, err)
+			continue
+		}
+		for _, k := range universe {
+			_, val, err := it.GetWithIndex([]byte(k))
+			if err != nil || string(val) != m.saved[v][k] {
+				e.bad("contents-differ-from-model", "%s roll-back: version %d GetWithIndex(%s)=(%q,%v) want %q", when, v, k, val, err, m.saved[v][k])
+			}
+			val, err = it.Get([]byte(k))
+			if err != nil || string(val) != m.saved[v][k] {
+				e.bad("contents-differ-from-model", "%s roll-back: version %d Get(%s)=(%q,%v) want %q", when, v, k, val, err, m.saved[v][k])
+			}
+		}
 	}
 }
 
@@ -684,6 +808,7 @@ var (
 	nBitflips       atomic.Int64
 	nRangeIters     atomic.Int64
 	nReads          atomic.Int64
+	nReadsAround    atomic.Int64 // full read passes before/after a roll-back operation
 	shapes          sync.Map
 	nShapes         atomic.Int64
 	maxHeight       atomic.Int64
@@ -1293,6 +1418,9 @@ func (x *explorer) phase2(trace []uint8) (enabled []uint8, bad bool) {
 			if e.m.base < e.m.latest {
 				r.Outcome("state:working-on-older-version")
 			}
+			if e.m.epoch > 0 {
+				r.Outcome("state:after-rollback-by-version-deletion")
+			}
 			r.Distinct(string(dg))
 			var ref strings.Builder
 			if e.shCur != nil {
@@ -1473,6 +1601,49 @@ func dirtyLoadFastCheck() {
 	}
 }
 
+// fastDelFromStrict: flip to true once the lead has classified the finding below (known_findings.jsonl); until then the
+// targeted check records it as an outcome class + sample only, so that the unchanged tree exits 0.
+const fastDelFromStrict = false
+
+const fastDelFromKey = "fast-storage|DeleteVersionsFrom-keeps-fast-index-of-deleted-latest-version|Save,Set(b),Save,LoadVersion(1),DelFrom(2)"
+
+// fastDelFromCheck: targeted check of the history class the fast-storage configurations side-step in the BFS:
+// MutableTree.DeleteVersionsFrom (public API) deletes the newest versions but leaves the fast-node index, which
+// describes the deleted latest version, in place; reads of the new latest version trust that index.
+func fastDelFromCheck() {
+	e := runTrace(cfgs[2], seedOf(Op{kSave, 0}, Op{kSet, 0}, Op{kSave, 0}, Op{kLoadV, 1}))
+	err := e.tree.DeleteVersionsFrom(2)
+	r.Eval()
+	var got, gets []string
+	if err == nil {
+		if it, ierr := e.tree.Iterator(nil, nil, true); ierr == nil {
+			for ; it.Valid(); it.Next() {
+				got = append(got, string(it.Key())+"="+string(it.Value()))
+			}
+			it.Close()
+		}
+		for _, k := range keys {
+			if v, _ := e.tree.Get([]byte(k)); v != nil {
+				gets = append(gets, k+"="+string(v))
+			}
+		}
+	}
+	if err != nil || len(got) != 0 || len(gets) != 0 {
+		detail := map[string]any{"config": cfgs[2].Name, "get": gets, "iterator": got, "want_contents": "", "err": fmt.Sprint(err),
+			"where": "tm2/pkg/iavl/nodedb.go DeleteVersionsFrom: 'we don't touch fast node indexes here, because it'll be rebuilt later because of version mismatch' - but MutableTree.DeleteVersionsFrom does not rebuild, and until the next LoadVersion of the NEW LATEST version Get/Iterator of the latest version answer from the index of the deleted version (a LoadVersion of an older version rebuilds the index from that older version instead)",
+			"note": "fast-storage mode only (skipFastStorageUpgrade=false); gno always passes true and never calls DeleteVersionsFrom"}
+		r.Outcome("fast-delfrom:stale-fast-index(fast-storage mode only; side-stepped in the BFS by a reload)")
+		if fastDelFromStrict {
+			r.Violation(fastDelFromKey, detail)
+		} else {
+			detail["key"] = fastDelFromKey
+			r.Sample(detail)
+		}
+	} else {
+		r.Outcome("fast-delfrom:ok")
+	}
+}
+
 // zombieVersionCheck: targeted check (stable key) of the defect class the BFS prunes: DeleteVersionsTo must make the
 // deleted versions non-existent for good (also after a restart) and must not break later pruning.
 func zombieVersionCheck() {
@@ -1554,6 +1725,12 @@ func main() {
 	for v := int64(1); v <= maxV; v++ {
 		alphabet = append(alphabet, Op{kDelTo, v})
 	}
+	for v := int64(1); v <= maxV; v++ {
+		alphabet = append(alphabet, Op{kLoadOW, v})
+	}
+	for v := int64(2); v <= maxV; v++ {
+		alphabet = append(alphabet, Op{kDelFrom, v})
+	}
 
 	x := &explorer{seen: map[[32]byte]bool{}, depthDone: map[string]int{}, frontiers: map[string][]entry{}, census: map[string]int{}}
 	S := func(i int) Op { return Op{kSet, int64(i)} }
@@ -1610,6 +1787,7 @@ func main() {
 	}
 	seeds = append(seeds, extra...)
 	dirtyLoadFastCheck()
+	fastDelFromCheck()
 	zombieVersionCheck()
 
 	// report violations deterministically: shortest trace first
@@ -1659,12 +1837,14 @@ func main() {
 		"sha256 collision resistance (single-bit proof mutations must fail; distinct contents must give distinct hashes)",
 		"ics23 verification (github.com/cosmos/ics23/go, IavlSpec) is the trusted proof verifier",
 		"options not explored: InitialVersion, AsyncPruning, small FlushThreshold, legacy (pre-v1) node format, Import/Export",
+		"roll-back operations: LoadVersionForOverwriting(v) for v < latest, DeleteVersionsFrom(v) only for v above the version a clean working tree is based on; both read every key of every version before and after (all configurations); values written after a roll-back differ from the values of the deleted incarnation of the same version number",
+		"fast-storage configurations reload after DeleteVersionsFrom (stale fast index, recorded by the targeted check fast-delfrom:* as an outcome class and a sample)",
 	}
-	r.Finish("BFS over all operation sequences up to the per-seed depth over {Set,Remove}x keys, SaveVersion, Rollback, Load, LoadVersion v, DeleteVersionsTo v, Reopen (+ no-op battery) on the real MutableTree/MemDB; a state is distinct when the sha256 of (full DB dump, in-memory tree digest, model state) is new; every transition is replayed from scratch under 4 configurations and every new state is fully observed against the per-version sorted-map model",
+	r.Finish("BFS over all operation sequences up to the per-seed depth over {Set,Remove}x keys, SaveVersion, Rollback, Load, LoadVersion v, DeleteVersionsTo v, Reopen, LoadVersionForOverwriting v, DeleteVersionsFrom v (+ no-op battery) on the real MutableTree/MemDB; a state is distinct when the sha256 of (full DB dump, in-memory tree digest, model state) is new; every transition is replayed from scratch under 4 configurations and every new state is fully observed against the per-version sorted-map model",
 		exhaustive, map[string]any{
 			"states": x.states, "transitions": x.transitions, "traces_validated_against_impl": x.transitions,
 			"depth": depths, "keys": keys, "max_version": maxV, "configurations": len(cfgs),
 			"proofs_checked": nProofs.Load(), "proof_bit_mutations": nBitflips.Load(), "range_iterations": nRangeIters.Load(),
-			"point_reads": nReads.Load(), "distinct_tree_shapes": nShapes.Load(), "max_tree_height": maxHeight.Load(),
+			"point_reads": nReads.Load(), "full_read_passes_around_rollbacks": nReadsAround.Load(), "distinct_tree_shapes": nShapes.Load(), "max_tree_height": maxHeight.Load(),
 		})
 }
